@@ -12,10 +12,15 @@ Log == ndJsonDeserialize(IOEnv.TRACE_FILE)
 VARIABLE l
 
 AnyRaised(parts) == \E i \in 1..Len(parts) : parts[i].k = "raised"
+\* the exception of the first member that fails
+FirstRaised(parts) == parts[CHOOSE i \in 1..Len(parts) : parts[i].k = "raised" /\ \A j \in 1..(i - 1) : parts[j].k # "raised"].e
 
 Clause(e) ==
   CASE e.ev = "memberwise" ->
-         (IF AnyRaised(e.parts) THEN (IF e.whole.k = "raised" THEN "" ELSE "Memberwise.exceptionParity")
+         (IF AnyRaised(e.parts) THEN (IF e.whole.k # "raised" THEN "Memberwise.exceptionParity"
+                                      \* exactly one member was made to fail: the composite fails the way that member does
+                                      ELSE IF e.classpar /\ e.whole.e # FirstRaised(e.parts) THEN "Memberwise.exceptionClassDiffers"
+                                      ELSE "")
           ELSE IF e.rebuilt.k = "raised" THEN ""                 \* the members convert but cannot form the composite
           ELSE IF e.whole.k = "raised" THEN "Memberwise.compositeRaised"
           ELSE IF e.whole.r # e.rebuilt.r THEN "Memberwise.differs" ELSE "")
